@@ -32,7 +32,7 @@ static int mode_of_name(long v) { return v == 822 ? RM_822 : v == 5321 ? RM_5321
 
 typedef int (*local_fn)(const char *, const char *);
 static local_fn LOCAL[4] = { is_822_local, is_5321_local, is_5322_local, is_6531_local };
-static eav_t EAV[4];
+static eav_t EAV[4], EAVALL[4];   /* EAVALL: policy on, every TLD class allowed */
 
 static int C_L1, C_L2, C_L2P, C_L3, C_U, C_ACC, C_REJ, C_ANY, C_IMPLACC;
 static int g_tails = 1;
@@ -45,6 +45,12 @@ static void setup_objects(void) {
         EAV[m].rfc = rfc[m];
         EAV[m].tld_check = false;
         if (eav_setup(&EAV[m]) != 0) { fprintf(stderr, "eav_setup failed\n"); exit(2); }
+        memset(&EAVALL[m], 0, sizeof EAVALL[m]);
+        eav_init(&EAVALL[m]);
+        EAVALL[m].rfc = rfc[m];
+        EAVALL[m].tld_check = true;
+        EAVALL[m].allow_tld = 0x7fe;          /* EAV_TLD_INVALID .. EAV_TLD_RETIRED */
+        if (eav_setup(&EAVALL[m]) != 0) { fprintf(stderr, "eav_setup failed\n"); exit(2); }
     }
 }
 
@@ -101,6 +107,15 @@ static void check_local(const char *sub, int mode, const unsigned char *s, size_
         mc_violation(sub, why_of(mode, s, n, exp, rc1, "local@"), "", cfg, s, n, "is_%s_local(followed by '@'): reference %s, library rc=%d", mode_name(mode), exp == R_ACC ? "ACCEPT" : "REJECT", rc1);
     if (exp2 != R_ANY && (r2 == 1) != (exp2 == R_ACC))
         mc_violation(sub, n > 64 ? "email:lpart>64-accepted" : why_of(mode, s, n, exp2, -e2, "email"), "", cfg, s, n, "eav_is_email(L@ok.com) mode %s: reference %s, library returned %d errcode=%d", mode_name(mode), exp2 == R_ACC ? "ACCEPT" : "REJECT", r2, e2);
+    /* a validator that refuses with a POSITIVE code: eav_is_email reads positive codes as TLD classes and hands them to the
+     * policy mask, so such a refusal can turn into an acceptance - observe it there, with every class allowed */
+    if (rc0 > 0 || rc1 > 0) {
+        int r3 = eav_is_email(&EAVALL[mode], (const char *)buf, n + 7); MC_ADD(C_EVAL, 1);
+        if (exp2 != R_ANY && (r3 == 1) != (exp2 == R_ACC))
+            mc_violation(sub, "email:refused-local-part-accepted-under-permissive-policy", "", cfg, s, n,
+                         "is_%s_local refused with the positive code %d; eav_is_email(L@ok.com, tld_check on, all classes allowed) returned %d errcode=%d, reference %s",
+                         mode_name(mode), rc0 > 0 ? rc0 : rc1, r3, EAVALL[mode].errcode, exp2 == R_ACC ? "ACCEPT" : "REJECT");
+    }
     if (rc0 != rc1)
         mc_violation(sub, "depends-on-byte-after-end", "", cfg, s, n, "is_%s_local depends on the byte after the local part: rc=%d with NUL, rc=%d with '@'", mode_name(mode), rc0, rc1);
     /* more contexts: the range [start,end) sits in the middle of a longer buffer - whatever follows `end' must not matter
